@@ -5,7 +5,9 @@ package main
 // detect is applied IN MEMORY (packages.Config.Overlay) to /repo's current
 // sources; the whole program is re-loaded and the property's rules are re-run
 // by a child process. The rules must report a violation on the variant.
-// Nothing is executed from Bytom; /repo is not touched.
+// The specificity suite does the converse with the behaviour-preserving
+// refactorings kept under /verif/refactors/<name>/patch.diff: the rules must
+// stay silent on them. Nothing is executed from Bytom; /repo is not touched.
 
 import (
 	"encoding/json"
@@ -15,6 +17,7 @@ import (
 	"path/filepath"
 	"sort"
 	"strings"
+	"sync"
 )
 
 // buildOverlay applies the unified diff to copies of the files it touches and
@@ -90,9 +93,111 @@ func seedsFor(verifDir, id string) []string {
 	return out
 }
 
+type refMeta struct {
+	Property string   `json:"property"`
+	Summary  string   `json:"summary"`
+	Relevant []string `json:"relevant_properties"`
+}
+
+// refactorsFor lists behaviour-preserving variants recorded as relevant to property id.
+func refactorsFor(verifDir, id string) []string {
+	var out []string
+	ms, _ := filepath.Glob(filepath.Join(verifDir, "refactors", "*", "meta.json"))
+	sort.Strings(ms)
+	for _, m := range ms {
+		b, err := os.ReadFile(m)
+		if err != nil {
+			continue
+		}
+		var rm refMeta
+		if json.Unmarshal(b, &rm) != nil {
+			continue
+		}
+		for _, d := range rm.Relevant {
+			if d == id {
+				out = append(out, filepath.Dir(m))
+			}
+		}
+	}
+	return out
+}
+
+type childResult struct {
+	name string
+	code int
+	line string
+}
+
+// runChildren re-runs property id on each variant directory in child
+// processes (one program load each, four at a time, so memory stays bounded).
+func runChildren(c *Ctx, verifDir, id string, dirs []string) []childResult {
+	out := make([]childResult, len(dirs))
+	sem := make(chan struct{}, 4)
+	var wg sync.WaitGroup
+	for i, s := range dirs {
+		wg.Add(1)
+		go func(i int, s string) {
+			defer wg.Done()
+			sem <- struct{}{}
+			defer func() { <-sem }()
+			cmd := exec.Command(os.Args[0], "-property", id, "-repo", c.RepoDir, "-verif", verifDir, "-variant", filepath.Join(s, "patch.diff"))
+			b, err := cmd.CombinedOutput()
+			code := 0
+			if ee, ok := err.(*exec.ExitError); ok {
+				code = ee.ExitCode()
+			} else if err != nil {
+				code = 2
+			}
+			line := ""
+			for _, l := range strings.Split(string(b), "\n") {
+				if (strings.Contains(l, "violated:") || strings.Contains(l, "MACHINERY-FAILURE")) && line == "" {
+					line = strings.TrimSpace(l)
+				}
+			}
+			if len(line) > 300 {
+				line = line[:300]
+			}
+			out[i] = childResult{filepath.Base(s), code, line}
+		}(i, s)
+	}
+	wg.Wait()
+	return out
+}
+
+// runSpecificity: the recorded behaviour-preserving refactorings of the code
+// this property is anchored in must not be reported.
+func runSpecificity(c *Ctx, verifDir, id string, extra map[string]interface{}) {
+	dirs := refactorsFor(verifDir, id)
+	type res struct {
+		Variant string `json:"variant"`
+		Result  string `json:"result"`
+	}
+	var results []res
+	for _, r := range runChildren(c, verifDir, id, dirs) {
+		switch {
+		case r.code == 0:
+			c.Ob("specificity", "behaviour-preserving variant "+r.name+" is not reported", true, true, "silent")
+			results = append(results, res{r.name, "silent"})
+		case r.code == 1:
+			c.Ob("specificity", "behaviour-preserving variant "+r.name+" is not reported", false, true, "false alarm of the rules of %s on refactoring %s: %s", id, r.name, r.line)
+			results = append(results, res{r.name, "FALSE ALARM: " + r.line})
+		default:
+			if strings.Contains(r.line, "patch") || strings.Contains(r.line, "overlay") {
+				c.Notef("refactoring variant %s skipped: %s", r.name, r.line)
+				results = append(results, res{r.name, "skipped: " + r.line})
+			} else {
+				c.Ob("specificity", "behaviour-preserving variant "+r.name+" is not reported", false, true, "rules of %s undecided on refactoring %s: %s", id, r.name, r.line)
+				results = append(results, res{r.name, "UNDECIDED: " + r.line})
+			}
+		}
+	}
+	extra["specificity_variants"] = results
+}
+
 // runSensitivity re-runs the property on every recorded variant in child
 // processes (one program load each, so memory stays bounded).
 func runSensitivity(c *Ctx, verifDir, id string, extra map[string]interface{}) {
+	defer runSpecificity(c, verifDir, id, extra)
 	seeds := seedsFor(verifDir, id)
 	type res struct {
 		Seed   string `json:"seed"`
@@ -100,29 +205,9 @@ func runSensitivity(c *Ctx, verifDir, id string, extra map[string]interface{}) {
 	}
 	var results []res
 	applied := 0
-	for _, s := range seeds {
-		name := filepath.Base(s)
-		cmd := exec.Command(os.Args[0], "-property", id, "-repo", c.RepoDir, "-verif", verifDir, "-variant", filepath.Join(s, "patch.diff"))
-		out, err := cmd.CombinedOutput()
-		code := 0
-		if ee, ok := err.(*exec.ExitError); ok {
-			code = ee.ExitCode()
-		} else if err != nil {
-			code = 2
-		}
-		line := ""
-		for _, l := range strings.Split(string(out), "\n") {
-			if strings.Contains(l, "violated:") && line == "" {
-				line = strings.TrimSpace(l)
-			}
-			if strings.Contains(l, "MACHINERY-FAILURE") && line == "" {
-				line = strings.TrimSpace(l)
-			}
-		}
-		if len(line) > 300 {
-			line = line[:300]
-		}
-		switch code {
+	for _, r := range runChildren(c, verifDir, id, seeds) {
+		name, line := r.name, r.line
+		switch r.code {
 		case 1:
 			applied++
 			c.Ob("sensitivity", "seeded variant "+name+" is reported", true, true, "%s", line)
